@@ -468,10 +468,18 @@ func addConsensusKind(sr bool) {
 				return err
 			case *consensus.Payload:
 				// Re-encode the decoded message body instead of replaying the received Data.
+				// (encodeData also resets the validity range to what the node itself uses; a received payload
+				// keeps the range it came with, so restore it.)
 				c := *x
 				c.Data = nil
+				tmp := io.NewBufBinWriter()
+				c.EncodeBinary(tmp.BinWriter)
+				if tmp.Err != nil {
+					return tmp.Err
+				}
+				c.ValidBlockStart, c.ValidBlockEnd = x.ValidBlockStart, x.ValidBlockEnd
 				bw := io.NewBinWriterFromIO(w)
-				c.EncodeBinary(bw)
+				c.Extensible.EncodeBinary(bw)
 				return bw.Err
 			}
 			return errors.New("bad value")
